@@ -261,6 +261,10 @@ def check_fit_emit(ctx, replay, out):
         return
     rel = g.get("rel") or {}
     cls = rel.get("cls")
+    ctx.count("fit emit guards: labelsOKB=%s unplacedWfRun=%s" % (rel.get("labels"), rel.get("uWfRun")))
+    for kk in ("uStart", "uEnd"):
+        if rel.get(kk) is not None:
+            ctx.count("fit emit: unplaced %s half well-formed over the loop: %s" % ("start" if kk == "uStart" else "end", rel[kk]))
     if g.get("kind") in ("replace", "around"):
         ctx.count("fit emit: %s slice -> %s, StepWF=%s" % (cls, g["kind"], g.get("wf")))
         if g.get("left") is not True:
@@ -269,6 +273,15 @@ def check_fit_emit(ctx, replay, out):
             ctx.count("fit emit: hypotheses of %s hold" % ("delete_emits_wf" if cls == "empty" else "insertInline_emits_wf"))
             if g.get("wf") is not True or (g["kind"] == "around" and g.get("shape") is not True):
                 ctx.mismatch("fitEmit:hypotheses-true-but-not-StepWF", replay, True, g)
+        # fit_emits_wf (Props/C11.lean): schema/document hypotheses, a well-formed request slice and `unplacedWfRun`
+        # (the unplaced slice stays Slice.wf over the run) => StepWF (and aroundShape)
+        if rel.get("hyp") and rel.get("labels") and rel.get("slWf") and replay["from"] <= replay["to"]:
+            if rel.get("uWfRun"):
+                ctx.count("fit emit: hypotheses of fit_emits_wf hold (%s slice)" % cls)
+                if g.get("wf") is not True or (g["kind"] == "around" and g.get("shape") is not True):
+                    ctx.mismatch("fitEmit:fit_emits_wf-hypotheses-true-but-not-StepWF", replay, True, g)
+            else:
+                ctx.count("fit emit: unplacedWfRun false (%s slice)" % cls)
         if rel.get("inStep") is not None:
             ctx.count("fit emit: in-step invariant over the loop (%s slice): %s" % (cls, rel["inStep"]))
             if rel["inStep"] and g.get("wf") is not True:
